@@ -500,6 +500,9 @@ func FastMarshalMultiRows(src []byte, rows []Row) ([]byte, error) {
 
 func FastUnmarshalMultiRows(src []byte, rows []Row, tagPool []Tag, fieldPool []Field, indexOptionPool []IndexOption,
 	indexKeyPool []byte) ([]Row, []Tag, []Field, []IndexOption, []byte, error) {
+	if len(src) < 5 {
+		return rows[:0], tagPool, fieldPool, indexOptionPool, indexKeyPool, errors.New("too small bytes for rows header")
+	}
 	pointsN := int(encoding.UnmarshalUint32(src))
 	src = src[4:]
 	//version := src[0]
@@ -574,10 +577,10 @@ func (r *Row) FastUnmarshalBinary(src []byte, tagpool []Tag, fieldpool []Field, 
 		return nil, tagpool, fieldpool, indexOptionPool, indexKeypool, err
 	}
 
-	r.Timestamp = encoding.UnmarshalInt64(src[:8])
 	if len(src) < 8 {
 		return nil, tagpool, fieldpool, indexOptionPool, indexKeypool, errors.New("too small bytes for row timestamp")
 	}
+	r.Timestamp = encoding.UnmarshalInt64(src[:8])
 
 	indexKeypool = r.UnmarshalIndexKeys(indexKeypool)
 
@@ -748,13 +751,19 @@ func (r *Row) marshalIndexOptions(dst []byte) ([]byte, error) {
 }
 
 func (r *Row) unmarshalIndexOptions(src []byte, indexOptionPool []IndexOption) ([]byte, []IndexOption, error) {
-	isIndexOpt := src[:INDEXCOUNT]
 	r.IndexOptions = nil
+	if len(src) < INDEXCOUNT {
+		return nil, indexOptionPool, errors.New("too small for indexOption flag")
+	}
+	isIndexOpt := src[:INDEXCOUNT]
 	if isIndexOpt[0] == hasNoIndexOption {
 		src = src[INDEXCOUNT:]
 		return src, indexOptionPool, nil
 	}
 	src = src[INDEXCOUNT:]
+	if len(src) < 4 {
+		return nil, indexOptionPool, errors.New("too small for indexOption count")
+	}
 	indexN := int(encoding.UnmarshalUint32(src[:4]))
 	src = src[4:]
 	start := len(indexOptionPool)
@@ -765,7 +774,7 @@ func (r *Row) unmarshalIndexOptions(src []byte, indexOptionPool []IndexOption) (
 	indexOptionPool = indexOptionPool[:start+indexN]
 
 	for i := 0; i < indexN; i++ {
-		if len(src) < 1 {
+		if len(src) < 6 {
 			return nil, indexOptionPool, errors.New("too small for indexOption key length")
 		}
 
@@ -781,6 +790,9 @@ func (r *Row) unmarshalIndexOptions(src []byte, indexOptionPool []IndexOption) (
 		}
 		src = src[2:]
 		for j := 0; j < int(indexListLen); j++ {
+			if len(src) < 2 {
+				return nil, indexOptionPool, errors.New("too small for indexOption index list")
+			}
 			indexOpt.IndexList[j] = encoding.UnmarshalUint16(src[:2])
 			src = src[2:]
 		}
